@@ -371,6 +371,49 @@ func runWireTaint(c *core.Ctx) []core.Obligation {
 		}
 	}
 
+	// ---------------- thrift element counts that bound a loop: negative counts are rejected
+	for _, fn := range c.RepoFunctions() {
+		if fn.Blocks == nil || !strings.HasPrefix(shortName(fn), "thrift.") || fn.Synthetic != "" {
+			continue
+		}
+		name := shortName(fn)
+		k := 0
+		seenV := map[ssa.Value]bool{}
+		for _, h := range loopHeaders(fn) {
+			body := loopBlocks(h)
+			for blk := range body {
+				if len(blk.Instrs) == 0 {
+					continue
+				}
+				ifi, ok := blk.Instrs[len(blk.Instrs)-1].(*ssa.If)
+				if !ok {
+					continue
+				}
+				bo, ok := ifi.Cond.(*ssa.BinOp)
+				if !ok || bo.Op != token.LSS || !isLoopCond(bo) {
+					continue
+				}
+				bound := bo.Y
+				v := stripConv(bound)
+				if bt, ok := v.Type().Underlying().(*types.Basic); !ok || bt.Kind() != types.Int32 || !wireSized(v) || seenV[v] {
+					continue
+				}
+				seenV[v] = true
+				k++
+				key := fmt.Sprintf("count:%s:sign", name)
+				if k > 1 {
+					key = fmt.Sprintf("count:%s#%d:sign", name, k)
+				}
+				// the sign test must dominate the loop header
+				if signedUnchecked(bound, h) && signedUnchecked(bound, blk) {
+					b.addP([]string{"C08"}, core.Violation, key, c.InstrPos(ifi), fmt.Sprintf("%s loops over a signed 32-bit element count read from the wire with no dominating test that it is >= 0: a negative count is accepted as an empty container instead of being rejected", name))
+				} else {
+					b.addP([]string{"C08"}, core.Discharged, key, c.InstrPos(ifi), "element count tested >= 0 before the loop")
+				}
+			}
+		}
+	}
+
 	// ---------------- thrift allocations
 	for _, fn := range c.RepoFunctions() {
 		if fn.Blocks == nil || !strings.HasPrefix(shortName(fn), "thrift.") || fn.Synthetic != "" {
